@@ -17,7 +17,7 @@
        normal and continue;
      - the condition is evaluated only at the head of the innermost running loop;
      - an advance reports "no step" only after the whole continuation unwound.
-   Events: {"e": adv|ret|bind|comb|kcomb|for|cond|kfor|forpost|kforpost|sig, "c": coroutine, "t": argument}
+   Events: {"e": adv|ret|bind|comb|kcomb|for|cond|kfor|forpost|kforpost|brk|kbrk|sig, "c": coroutine, "t": argument}
    with t = 0 normal, 1 break, 2 continue, 3 return for signals, 0/1 for cond and ret. *)
 EXTENDS Integers, Sequences, TLC, Json, IOUtils
 
@@ -39,6 +39,7 @@ Step(s, e) ==   \* the successor state of coroutine state s under event e, or Re
   CASE e.e = "adv"  -> IF s.mode = "idle" THEN [s EXCEPT !.mode = "run", !.stack = s.saved] ELSE Reject
     [] e.e = "comb" -> IF s.mode = "run" THEN [s EXCEPT !.stack = Append(@, "comb")] ELSE Reject
     [] e.e = "for"  -> IF s.mode = "run" THEN [s EXCEPT !.stack = Append(@, "for")] ELSE Reject
+    [] e.e = "brk"  -> IF s.mode = "run" THEN [s EXCEPT !.stack = Append(@, "brk")] ELSE Reject
     [] e.e = "forpost" -> IF s.mode = "run" /\ s.stack # <<>> /\ Top(s) = "for" THEN [s EXCEPT !.stack = Append(@, "fp")] ELSE Reject
     [] e.e = "cond" -> IF s.mode = "run" /\ s.stack # <<>> /\ Top(s) = "for"
                        THEN (IF e.t = 1 THEN s ELSE [s EXCEPT !.stack = Pop(s), !.mode = "unw", !.t = 0])   \* false: k(normal)
@@ -48,6 +49,10 @@ Step(s, e) ==   \* the successor state of coroutine state s under event e, or Re
     [] e.e = "kcomb" -> IF s.mode = "unw" /\ s.t = e.t /\ s.stack # <<>> /\ Top(s) = "comb"
                         THEN (IF e.t = 0 THEN [s EXCEPT !.stack = Pop(s), !.mode = "run"] ELSE [s EXCEPT !.stack = Pop(s)])
                         ELSE Reject
+    \* Breakable's continuation: break => k(normal), every other signal travels on unchanged
+    [] e.e = "kbrk" -> IF s.mode = "unw" /\ s.t = e.t /\ s.stack # <<>> /\ Top(s) = "brk"
+                       THEN (IF e.t = 1 THEN [s EXCEPT !.stack = Pop(s), !.t = 0] ELSE [s EXCEPT !.stack = Pop(s)])
+                       ELSE Reject
     [] e.e = "kfor" -> IF s.mode = "unw" /\ s.t = e.t /\ s.stack # <<>> /\ Top(s) = "for"
                        THEN (CASE e.t \in {0, 2} -> [s EXCEPT !.mode = "run"]                               \* next iteration, frame stays
                                [] e.t = 1 -> [s EXCEPT !.stack = Pop(s), !.t = 0]                           \* break => k(normal)
@@ -67,6 +72,6 @@ Next == /\ l <= Len(Trace)
         /\ l' = l + 1
 Spec == Init /\ [][Next]_vars
 \* a finished generator stays finished (SeqMachine: next = nil); stacks only hold known frames
-Inv == \A c \in DOMAIN st : \A i \in 1..Len(st[c].stack) : st[c].stack[i] \in {"comb", "for", "fp"}
+Inv == \A c \in DOMAIN st : \A i \in 1..Len(st[c].stack) : st[c].stack[i] \in {"comb", "for", "fp", "brk"}
 TraceAccepted == TLCGet("stats").diameter - 1 = Len(Trace)
 =============================================================================
